@@ -28,6 +28,7 @@ import Driver.Frame
 import Driver.LedgerNode
 import Driver.VdbCache
 import Driver.Translated
+import Driver.Accept
 /-
 One line per handler object. The first handler that understands a line answers it.
 -/
@@ -72,7 +73,8 @@ def registry : List Obj := [
   pureObj pureFrame,
   mkObj ({} : PmSt) pmStep,
   ledgerNodeObj,
-  vcObj
+  vcObj,
+  pureObj pureAccept
 ]
 
 end ZV.Driver
